@@ -265,7 +265,8 @@ def bounded(b):
     if b.tier == "quick":
         import random
         rng = random.Random(b.seed)
-        combos = [(m, "shift", 0) for m in range(6)] + rng.sample(combos, 8)
+        combos = [(m, "shift", 0) for m in range(6)] + [(0, "time_sig_change", 0), (3, "pad_bar", 96)] + rng.sample(combos, 8)
+        combos = list(dict.fromkeys(combos))
     b.rules.append("generated scores (%d: divisions 1,2,3,4,6,7,12,480 across parts, a divisions change inside a part with notes held over it, "
                    "triplets, 6/8, pickups, grace notes, ties and untied notes over barlines, two voices) x (mode, pickup policy, minimum_ppq) "
                    "combinations (%d); contract: ppq = lcm doubled to the minimum, every note tick = ppq * (exact quarter position - origin), "
@@ -326,6 +327,21 @@ def bounded(b):
                         t = 0
                     if ana != "time_sig_change" and not any(m.type == "time_signature" and tk == t and (m.numerator, m.denominator) == (tsg.beats, tsg.beat_type) for (_, tk, m) in metas):
                         okm, whatm = False, "time signature %d/%d not at tick %s" % (tsg.beats, tsg.beat_type, t)
+                    if ana == "time_sig_change":
+                        # documented policy: a measure whose length is not that of its signature gets a signature of its own length, the
+                        # notated one follows at its end; a signature at the start of a measure of the notated length is written as it is
+                        ms = [m_ for m_ in p.iter_all(sc.Measure) if m_.start.t == tsg.start.t]
+                        if ms:
+                            mbeats = O._integral(p, ms[0].start.t, ms[0].end.t, "beat")
+                            has = lambda tick, num, den: any(m.type == "time_signature" and tk == tick and (m.numerator, m.denominator) == (num, den) for (_, tk, m) in metas)
+                            if mbeats == tsg.beats:
+                                if not has(t, tsg.beats, tsg.beat_type):
+                                    okm, whatm = False, "time signature %d/%d of a measure of the notated length not at tick %s" % (tsg.beats, tsg.beat_type, t)
+                            elif mbeats.denominator == 1 and ms[0].start.t == p.first_point.t:
+                                t_end = mf.ticks_per_beat * (O.quarter_pos(p, ms[0].end.t) - ftp)
+                                later = [x for x in p.iter_all(sc.TimeSignature) if x.start.t > tsg.start.t]
+                                if not has(t, int(mbeats), tsg.beat_type) or (not later and not has(t_end, tsg.beats, tsg.beat_type)):
+                                    okm, whatm = False, "pickup of %s beats under %d/%d: expected %s/%d at tick %s and %d/%d at tick %s" % (mbeats, tsg.beats, tsg.beat_type, mbeats, tsg.beat_type, t, tsg.beats, tsg.beat_type, t_end)
                 for tp in p.iter_all(sc.Tempo):
                     t = mf.ticks_per_beat * (O.quarter_pos(p, tp.start.t) - ftp)
                     if not any(m.type == "set_tempo" and tk == t and tr == 0 for (tr, tk, m) in metas):
